@@ -447,6 +447,10 @@ inductive Outcome
   | errors (es : List Err)
   /-- `resolve_symbols` succeeded: canonical names of the plain references and of the heads -/
   | resolved (refs : List Path) (heads : List Path)
+  /-- a reference outside any type definition (value of a module-level attribute): the
+  traversal has no `current_scope` to pass to `_resolve_reference` and `traverse_ir` raises
+  AssertionError -/
+  | crash
   /-- internal inconsistency (a reference without a result although no error was recorded) -/
   | broken
   deriving Repr
@@ -471,6 +475,7 @@ def fullTable (M : ModuleDesc) : Table × List Err :=
 def resolveSymbols (M : ModuleDesc) (refs : List Ref) (frefs : List FRef) : Outcome :=
   let st := fullTable M
   if st.2 ≠ [] then .errors st.2 else
+  if (refs ++ frefs.map headRef).any (fun r => r.ctx.types.isEmpty) then .crash else
   let a := resolveRefs st.1 refs []
   let b := resolveRefs st.1 (frefs.map headRef) a.2
   if b.2 ≠ [] then .errors b.2 else
